@@ -156,7 +156,7 @@ class Lemmas:
                        "EntryIndex built only in build_indices (%d sites)" % len(cons),
                        "EntryIndex is constructed outside build_indices: %s" % fns)
         self.chk.floor("WHO", "EntryIndex constructors", len(cons), 6)
-        pat = re.compile(r"^some!\(Iterator::next\(IntoIterator::into_iter\(Iterator::enumerate\(\[T\]::iter\(signals\)\)\)\)\)\.0$")
+        pat = re.compile(r"^some!\(Iterator::next\(Iterator::enumerate\(\[T\]::iter\(signals\)\)\)\)\.0$")
         for b, bb, i, st in cons:
             t = P.sl(b).rvalue(st["rv"], bb, i)
             f = dict(t[3])
@@ -1040,7 +1040,7 @@ def canon_calls(P, b):
 # (True, reason) / (False, why-not).
 # ---------------------------------------------------------------------------
 
-IDX_ELEM = r"(elem\((?:Iterator::rev\()?(\[T\]::iter|Iterator::zip\(\[T\]::iter)\(self\.(input|expected)_indices\).*?\)(\.0)?|some!\(Iterator::next\((IntoIterator::into_iter|&\[T\]::into_iter)\((\[T\]::iter\()?self\.(input|expected)_indices\)?\)\)\))"
+IDX_ELEM = r"(elem\((?:Iterator::rev\()?(\[T\]::iter|Iterator::zip\(\[T\]::iter)\(self\.(input|expected)_indices\).*?\)(\.0)?|some!\(Iterator::next\((?:(IntoIterator::into_iter|&\[T\]::into_iter)\()?(\[T\]::iter\()?self\.(input|expected)_indices\)?\)?\)\))"
 SIGIDX_INDEX = re.compile(r"^(EntryIndex::signal_index\(%s\)|\(%s as (Entry|Default)\)\.signal_index)$" % (IDX_ELEM, IDX_ELEM))
 ENTRY_INDEX = re.compile(r"^\(%s as Entry\)\.entry_index$" % IDX_ELEM)
 
